@@ -60,6 +60,7 @@ func TestC10(t *testing.T) {
 	restoreOpener := faultsql.Install()
 	defer restoreOpener()
 	defer func() { run.Count("durable_appends_with_the_reply_lost_after_commit", lostAcks.Load()) }()
+	defer func() { run.Count("appended_documents_of_1_to_3_MiB", bigDocs.Load()) }()
 	scratch := os.Getenv("VERIF_SCRATCH")
 	if scratch == "" {
 		scratch = t.TempDir()
@@ -197,6 +198,11 @@ func doAppend(ctx context.Context, rng *rand.Rand, s *sut, viol violFn, fl *flag
 	if e.Time.Location().String() != "UTC" && !e.Time.IsZero() {
 		fl.nonUTC = true
 	}
+	if rng.IntN(400) == 0 {
+		// a document of 1-3 MiB: above the usual buffer, body and packet sizes
+		e.Data = json.RawMessage(`{"blob":"` + strings.Repeat("0123456789abcdef", (1<<16)+rng.IntN(1<<17)) + `","tail":[1,2,3]}`)
+		bigDocs.Add(1)
+	}
 	w := s.o.Store
 	if s.sibling != nil && rng.IntN(3) == 0 {
 		w = s.sibling.Store // another store object on the same durable state
@@ -238,7 +244,7 @@ func doAppend(ctx context.Context, rng *rand.Rand, s *sut, viol violFn, fl *flag
 // lostAckAppend (durable-streams): the server commits the append, the reply is lost (503). Whatever
 // the client makes of that, the event is in the log exactly once: every later read is compared with
 // a reference log that contains it once.
-var lostAcks atomic.Int64
+var lostAcks, bigDocs atomic.Int64
 
 func lostAckAppend(ctx context.Context, rng *rand.Rand, s *sut, viol violFn) {
 	e := reflog.Ev{Type: jgen.TypeString(rng), Data: jgen.Doc(rng, true), Time: jgen.Timestamp(rng)}
